@@ -121,7 +121,7 @@ EDITS_SIDE = (
     + [f"attr:{a}" for a in R.MANDATORY_ATTRS]
     + ["nodisp", "nobanddisp", "nomin", "nomax", "minmax"]
     # benign edits: the pair must stay accepted
-    + ["onenan", "extraband", "mineqmax", "extraattr", "nanband", "int_image", "attr_none"]
+    + ["onenan", "extraband", "mineqmax", "extraattr", "nanband", "int_image", "attr_none", "bandnames_object"]
 )
 EDITS_PAIR = ["size:rows", "size:cols", "size:both", "size:bands"]
 
@@ -185,7 +185,8 @@ def apply_edit(ds, edit, pos):
         if not has_im:
             raise NotApplicable
         return ds.drop_vars("im")
-    if edit in ("allnan", "onenan", "nanband", "int_image", "bandnames", "bandnames_mixed") and not has_im:
+    if edit in ("allnan", "onenan", "nanband", "int_image", "bandnames", "bandnames_mixed",
+                "bandnames_object") and not has_im:
         raise NotApplicable
     if edit == "allnan":
         ds["im"].values[...] = np.nan
@@ -205,6 +206,11 @@ def apply_edit(ds, edit, pos):
     if edit == "int_image":
         return _rebuild_image(ds, ds["im"].values.astype(np.int32), list(ds.coords["band_im"].values)
                               if "band_im" in ds.coords else None)
+    if edit == "bandnames_object":
+        # the same str names held in an object-typed coordinate (a pandas Index, a list given with dtype=object)
+        if "band_im" not in ds.coords:
+            raise NotApplicable
+        return ds.assign_coords(band_im=np.array([str(b) for b in ds.coords["band_im"].values], dtype=object))
     if edit in ("bandnames", "bandnames_mixed"):
         if "band_im" not in ds.coords:
             raise NotApplicable
